@@ -70,6 +70,7 @@ type HarnessSpec struct {
 	Harness  string            `json:"harness"`
 	Pkg      string            `json:"pkg"`
 	Family   string            `json:"family"`
+	Variant  string            `json:"variant"`
 	Desc     string            `json:"desc"`
 	Quick    map[string]string `json:"quick"`
 	Thorough map[string]string `json:"thorough"`
@@ -388,11 +389,13 @@ func cmdCheck(args []string) {
 
 	splitDepth := *split
 	if splitDepth < 0 {
-		splitDepth = 0
-		if len(jobs) < 3**workers {
-			splitDepth = 7
-		}
+		splitDepth = 7
 	}
+	// lifecycle instances are always split into prefix tasks (they dominate
+	// the tail); kernel instances only when there are few of them
+	fewJobs := len(jobs) < 3**workers
+	splitJob := func(j job) bool { return splitDepth > 0 && (fewJobs || j.spec.Family == "L") }
+	sort.SliceStable(jobs, func(a, b int) bool { return jobs[a].spec.Family == "L" && jobs[b].spec.Family != "L" })
 	runOne := func(sv *smt.Solver, j job, prefix []int64, enumerate bool) (jobResult, [][]int64) {
 		t1 := time.Now()
 		x := interp.NewExplorerOn(sv)
@@ -456,7 +459,7 @@ func cmdCheck(args []string) {
 	}
 	// phase 1: whole instances, or prefix enumeration when splitting
 	parallel(len(jobs), func(sv *smt.Solver, i int) {
-		r, prefixes := runOne(sv, jobs[i], nil, splitDepth > 0)
+		r, prefixes := runOne(sv, jobs[i], nil, splitJob(jobs[i]))
 		mu.Lock()
 		results = append(results, r)
 		for _, p := range prefixes {
